@@ -170,8 +170,10 @@ fn item_chroma_sweep(i: u64, sweep_cr: bool, acc: &mut Acc) {
 fn context_case(g: &mut crate::gen::Gen) -> Verdict {
     let w = if g.chance(1, 3) { g.range(1, 9) } else { g.range(4, 40) } as usize;
     let h = g.range(1, 10) as usize;
+    let sparse = g.chance(1, 4);
     let mut src = || g.byte();
-    let (y, cb, cr) = super::c08::planes(w, h, 4, &mut src);
+    let family = if sparse { 5 } else { 4 };
+    let (y, cb, cr) = super::c08::planes(w, h, family, &mut src);
     g.describe(|| json!({"w": w, "h": h, "y": y, "cb": cb, "cr": cr}));
     match super::c08::check_picture_at(w, &y, &cb, &cr, (0, 0, 0)) {
         Err(m) => Verdict::fail(m),
@@ -195,10 +197,13 @@ fn context_case(g: &mut crate::gen::Gen) -> Verdict {
             if grey {
                 l.push("colourless samples (Cb = Cr = 128)");
             }
+            if sparse {
+                l.push("uniform planes with a few deviating samples");
+            }
             let mut key = crate::bits::fnv64(&y);
             key = crate::bits::fnv64_extend(key, &cb);
             key = crate::bits::fnv64_extend(key, &cr);
-            Verdict::pass_l(equal_groups || equal_rows, key ^ ((w as u64) << 50), l)
+            Verdict::pass_l(equal_groups || equal_rows || sparse, key ^ ((w as u64) << 50), l)
         }
     }
 }
